@@ -420,6 +420,7 @@ namespace {
          if (not w.errors.empty()) break;
       }
       rep.count("traces");
+      if (rep.samples.size() < rep.sample_cap and h.size() >= 3) rep.sample(vf::JObj{}.str("history", hist_text(h)).num("nodes_re_observed_after_every_step", (long long) w.snaps.size()).done());
       std::set<int> distinct(h.begin(), h.end());
       if (distinct.size() < h.size()) rep.count("distinct_nontrivial");
       for (auto& e : w.errors) {
